@@ -143,10 +143,11 @@ def input_entry_points(facts):
             pass
         # locate by: local functions taking input::Handle as first arg and a generic Output, named by module
         out = {}
+        cands = {}
         for b in lib.bodies:
             if b.raw["def_kind"] != "Fn":
                 continue
-            if b.nargs != 2:
+            if b.nargs < 2:
                 continue
             import vocab
 
@@ -158,12 +159,31 @@ def input_entry_points(facts):
             fmts = [f for f, cs in FOREIGN_FMT.items() if cs[0] in crates]
             if len(fmts) != 1:
                 raise AnchorLost(f"cannot classify input entry point {b.id}: {sorted(crates)}")
-            out[fmts[0]] = b
+            cands.setdefault(fmts[0], []).append(b)
+        for fmt, bs in cands.items():
+            if len(bs) > 1:
+                # `transcode(input, output)` delegating to `transcode_with_limit(input, output, limit)`: the body that
+                # does the work is the one the others call; the others are recorded as its delegators
+                ids_ = {b.id for b in bs}
+                called = {(fn_of(t) or {}).get("resolved") or (fn_of(t) or {}).get("def") for b in bs for _, t in b.calls()} & ids_
+                workers = [b for b in bs if b.id in called and not any(((fn_of(t) or {}).get("resolved") or (fn_of(t) or {}).get("def")) in ids_ - {b.id} for _, t in b.calls())]
+                if len(workers) != 1:
+                    raise AnchorLost(f"several {fmt} input entry points and no single worker among them: {sorted(ids_)}")
+                out[fmt] = workers[0]
+                _cache[(id(facts), "input_entry_delegators:" + fmt)] = [b for b in bs if b.id != workers[0].id]
+            else:
+                out[fmt] = bs[0]
         if set(out) != set(FOREIGN_FMT):
             raise AnchorLost(f"expected 4 input entry points (fn(Handle, impl Output) -> Result<()>), found {sorted(out)}")
         return out
 
     return memo(facts, "input_entry_points", build)
+
+
+def input_entry_delegators(facts, fmt):
+    """Entry-point-shaped functions of `fmt` that only hand their arguments on to the entry point proper."""
+    input_entry_points(facts)
+    return _cache.get((id(facts), "input_entry_delegators:" + fmt), [])
 
 
 def trial_functions(facts):
@@ -173,7 +193,7 @@ def trial_functions(facts):
         lib = facts.lib
         out = {}
         for b in lib.bodies:
-            if b.raw["def_kind"] != "Fn" or b.nargs != 1:
+            if b.raw["def_kind"] != "Fn" or b.nargs < 1:
                 continue
             import vocab
 
@@ -999,9 +1019,21 @@ def accessor_const(lib, body, op, depth=0):
     if tr.origin and tr.origin[0] == "const" and all(s_[0] in ("use", "field") for s_ in tr.steps):
         v = tr.origin[1].get("v")
         return v if isinstance(v, int) and not isinstance(v, bool) else None
-    if tr.origin and tr.origin[0] == "call" and all(s_[0] == "use" for s_ in tr.steps):
+    if tr.origin and tr.origin[0] == "call" and all(s_[0] in ("use", "cast") for s_ in tr.steps):
         ct = tr.origin[2]
         f = fn_of(ct) or {}
+        if f.get("def") in ("core::slice::<impl [T]>::len", "core::str::<impl str>::len") and ct["args"]:
+            # `MARK.len()` of a constant byte string / str
+            at = trace(body, ct["args"][0])
+            if at.origin and at.origin[0] == "const" and all(s_[0] in ("use", "ref", "deref") for s_ in at.steps):
+                dec = at.origin[1].get("decoded")
+                if isinstance(dec, dict) and isinstance(dec.get("seq"), list):
+                    return len(dec["seq"])
+                if isinstance(dec, dict) and isinstance(dec.get("str"), str):
+                    return len(dec["str"].encode())
+                if isinstance(at.origin[1].get("str"), str):
+                    return len(at.origin[1]["str"].encode())
+            return None
         cb = lib.by_id.get(f.get("resolved") or f.get("def")) if f.get("local") else None
         if cb is not None and cb.nargs == 1 and len(ct["args"]) == 1:
             rets = cb.whole_defs(0)
